@@ -134,7 +134,8 @@ def do_fixture(task):
     return the decoded page streams (levels and dereferenced values, decoded by fastparquet's own page reader) and
     what to_pandas() gives for the column."""
     import numpy as np
-    from fastparquet import ParquetFile, core, encoding, parquet_thrift
+    from fastparquet import ParquetFile, core, parquet_thrift
+    from fastparquet import cencoding as encoding
     from fastparquet.cencoding import ThriftObject
     from fastparquet.converted_types import convert
     from fastparquet.schema import _is_list_like, _is_map_like
@@ -165,6 +166,45 @@ def do_fixture(task):
                     ph = ThriftObject.from_buffer(buf, "PageHeader")
                     if ph.type == parquet_thrift.PageType.DICTIONARY_PAGE:
                         dic = convert(core.read_dictionary_page(buf, h, ph, cmd, utf=se.converted_type == 0), se)
+                        continue
+                    if ph.type == parquet_thrift.PageType.DATA_PAGE_V2:
+                        # decoded here with fastparquet's primitives (level / value decoders), not with read_data_page_v2
+                        from fastparquet.compression import decompress_data
+                        from fastparquet.encoding import read_plain
+                        h2 = ph.data_page_header_v2
+                        raw = bytes(buf.read(ph.compressed_page_size))
+                        rl, dl = h2.repetition_levels_byte_length, h2.definition_levels_byte_length
+                        nv = h2.num_values
+                        rep = np.zeros(nv, dtype="uint8")
+                        if rec["max_rep"]:
+                            encoding.read_rle_bit_packed_hybrid(encoding.NumpyIO(np.frombuffer(raw[:rl], "uint8")),
+                                                                encoding.width_from_max_int(rec["max_rep"]), rl,
+                                                                encoding.NumpyIO(rep), itemsize=1)
+                        defi = np.full(nv, rec["max_def"], dtype="uint8")
+                        if rec["max_def"] and dl:
+                            encoding.read_rle_bit_packed_hybrid(encoding.NumpyIO(np.frombuffer(raw[rl:rl + dl], "uint8")),
+                                                                encoding.width_from_max_int(rec["max_def"]), dl,
+                                                                encoding.NumpyIO(defi), itemsize=1)
+                        nval = int((defi == rec["max_def"]).sum())
+                        vb = np.frombuffer(raw[rl + dl:], "uint8")
+                        if h2.is_compressed is None or h2.is_compressed:
+                            vb = decompress_data(vb, ph.uncompressed_page_size - rl - dl, cmd.codec)
+                        vb = np.frombuffer(bytes(vb), "uint8")
+                        if h2.encoding == parquet_thrift.Encoding.PLAIN:
+                            val = read_plain(vb, cmd.type, nval, width=se.type_length, utf=se.converted_type == 0)
+                        elif h2.encoding in (parquet_thrift.Encoding.PLAIN_DICTIONARY, parquet_thrift.Encoding.RLE_DICTIONARY):
+                            io = encoding.NumpyIO(vb)
+                            bw = io.read_byte()
+                            idx = np.zeros(nval, dtype="uint32")
+                            if bw:
+                                encoding.read_rle_bit_packed_hybrid(io, bw, len(vb) - 1, encoding.NumpyIO(idx.view("uint8")), itemsize=4)
+                            val = dic[idx]
+                        else:
+                            rec["skipped"] = "v2 value encoding %r" % h2.encoding
+                            break
+                        rec["pages"].append({"rep": [int(x) for x in rep], "def": [int(x) for x in defi],
+                                             "vals": [canon_scalar(x) for x in list(val)], "num_rows": h2.num_rows, "v2": True})
+                        num += nv
                         continue
                     if ph.type != parquet_thrift.PageType.DATA_PAGE:
                         rec["skipped"] = "page type %r" % ph.type
